@@ -307,6 +307,11 @@ ROUTINES = ['sle.als', 'sle.mals', 'evp.als nev=1', 'evp.als nev=2', 'evp.power_
             'ode.errors_trapezoidal']
 
 
+# routines that accept an over-parameterised state (rank 3 on modes of size 2); the alternating solvers do not -- their micro systems would be singular
+RANK3_ROUTINES = ('ode.explicit_euler', 'ode.hod', 'ode.hod previous_value', 'ode.tdvp1site', 'ode.tdvp2site', 'ode.krylov', 'ode.strang_splitting',
+                  'ode.lie_splitting', 'ode.yoshida_splitting', 'ode.kahan_li_splitting', 'tdmd_exact', 'tdmd_standard', 'ode.errors_expl_euler')
+
+
 def _order_eig_policy(ctx):
     """FreePolicy + in-place model + eigenvalues with a fixed strict order (no path explosion in argsort)"""
     from symtt import lapack, state
@@ -331,7 +336,7 @@ def _order_eig_policy(ctx):
 
 
 @scenario('C06', 'routines', lambda tier: [{'routine': r, 'rank': k, 'then': q, 'order': o} for o in ((2,) if tier == 'quick' else (2, 3)) for r in ROUTINES for k in (2, 1, 3)
-                                         for q in ('ortho_left()', 'ortho_right()') if not (k == 3 and (q == 'ortho_left()' or r.startswith(('regression', 'tedmd', 'tgedmd', 'transform'))))])
+                                         for q in ('ortho_left()', 'ortho_right()') if not (k == 3 and (q == 'ortho_left()' or r not in RANK3_ROUTINES))])
                                          # rank 3 on modes of size 2: an over-parameterised argument, which any orthonormalisation of the caller's object would shrink
 def routines(ctx, routine, rank, then, order=2):
     """one call of a solver / integrator / data-driven routine, then one in-place operation on each returned train: every argument and every other
